@@ -240,31 +240,35 @@ struct SkipSet {
     ss: Spec,
     xs: Spec,
     codes: u8,
+    /// 0: Params::plain_tex_defaults(), 1: Params::default() – the tables exactly as the crate provides them
+    ctor: u8,
 }
 fn skip_sets() -> Vec<SkipSet> {
     let p = PT as i64;
     let ss1 = Spec::new(5 * p, 2 * p, p);
     let xs1 = Spec::new(9 * p, p, 0);
     vec![
-        SkipSet { name: "default", ss: Spec::ZERO, xs: Spec::ZERO, codes: 0 },
-        SkipSet { name: "spaceskip=5pt plus 2pt minus 1pt", ss: ss1, xs: Spec::ZERO, codes: 0 },
-        SkipSet { name: "xspaceskip=9pt plus 1pt", ss: Spec::ZERO, xs: xs1, codes: 0 },
-        SkipSet { name: "spaceskip and xspaceskip", ss: ss1, xs: xs1, codes: 0 },
-        SkipSet { name: "spaceskip=4pt plus 1fil minus 2pt", ss: Spec { w: 4 * p, st: p, st_o: 1, sh: 2 * p, sh_o: 0 }, xs: Spec::ZERO, codes: 0 },
-        SkipSet { name: "spaceskip=0pt plus 3pt", ss: Spec::new(0, 3 * p, 0), xs: Spec::ZERO, codes: 0 },
-        SkipSet { name: "spaceskip=3pt plus -1pt minus -0.5pt", ss: Spec::new(3 * p, -p, -p / 2), xs: Spec::ZERO, codes: 0 },
-        SkipSet { name: "alt sfcodes", ss: Spec::ZERO, xs: Spec::ZERO, codes: 1 },
-        SkipSet { name: "alt sfcodes, spaceskip and xspaceskip", ss: ss1, xs: xs1, codes: 1 },
-        SkipSet { name: "edge sfcodes (1, 1001, 1999, 2000, 2001, 32767)", ss: Spec::ZERO, xs: Spec::ZERO, codes: 2 },
-        SkipSet { name: "edge sfcodes, spaceskip and xspaceskip", ss: ss1, xs: xs1, codes: 2 },
-        SkipSet { name: "spaceskip=0pt plus 0fil minus 0fill (is zero_glue), xspaceskip=0pt plus 0filll", ss: Spec { w: 0, st: 0, st_o: 1, sh: 0, sh_o: 2 }, xs: Spec { w: 0, st: 0, st_o: 3, sh: 0, sh_o: 0 }, codes: 0 },
-        SkipSet { name: "wide sfcodes (233, 255)", ss: Spec::ZERO, xs: Spec::ZERO, codes: 3 },
-        SkipSet { name: "wide sfcodes, spaceskip and xspaceskip", ss: ss1, xs: xs1, codes: 3 },
+        SkipSet { name: "default", ss: Spec::ZERO, xs: Spec::ZERO, codes: 0, ctor: 0 },
+        SkipSet { name: "spaceskip=5pt plus 2pt minus 1pt", ss: ss1, xs: Spec::ZERO, codes: 0, ctor: 0 },
+        SkipSet { name: "xspaceskip=9pt plus 1pt", ss: Spec::ZERO, xs: xs1, codes: 0, ctor: 0 },
+        SkipSet { name: "spaceskip and xspaceskip", ss: ss1, xs: xs1, codes: 0, ctor: 0 },
+        SkipSet { name: "spaceskip=4pt plus 1fil minus 2pt", ss: Spec { w: 4 * p, st: p, st_o: 1, sh: 2 * p, sh_o: 0 }, xs: Spec::ZERO, codes: 0, ctor: 0 },
+        SkipSet { name: "spaceskip=0pt plus 3pt", ss: Spec::new(0, 3 * p, 0), xs: Spec::ZERO, codes: 0, ctor: 0 },
+        SkipSet { name: "spaceskip=3pt plus -1pt minus -0.5pt", ss: Spec::new(3 * p, -p, -p / 2), xs: Spec::ZERO, codes: 0, ctor: 0 },
+        SkipSet { name: "alt sfcodes", ss: Spec::ZERO, xs: Spec::ZERO, codes: 1, ctor: 0 },
+        SkipSet { name: "alt sfcodes, spaceskip and xspaceskip", ss: ss1, xs: xs1, codes: 1, ctor: 0 },
+        SkipSet { name: "edge sfcodes (1, 1001, 1999, 2000, 2001, 32767)", ss: Spec::ZERO, xs: Spec::ZERO, codes: 2, ctor: 0 },
+        SkipSet { name: "edge sfcodes, spaceskip and xspaceskip", ss: ss1, xs: xs1, codes: 2, ctor: 0 },
+        SkipSet { name: "spaceskip=0pt plus 0fil minus 0fill (is zero_glue), xspaceskip=0pt plus 0filll", ss: Spec { w: 0, st: 0, st_o: 1, sh: 0, sh_o: 2 }, xs: Spec { w: 0, st: 0, st_o: 3, sh: 0, sh_o: 0 }, codes: 0, ctor: 0 },
+        SkipSet { name: "wide sfcodes (233, 255)", ss: Spec::ZERO, xs: Spec::ZERO, codes: 3, ctor: 0 },
+        SkipSet { name: "wide sfcodes, spaceskip and xspaceskip", ss: ss1, xs: xs1, codes: 3, ctor: 0 },
+        SkipSet { name: "Params::default()", ss: Spec::ZERO, xs: Spec::ZERO, codes: 0, ctor: 1 },
+        SkipSet { name: "Params::default(), spaceskip and xspaceskip", ss: ss1, xs: xs1, codes: 0, ctor: 1 },
     ]
 }
 
 fn text_params(s: &SkipSet) -> bwt::Params {
-    let mut p = bwt::Params::plain_tex_defaults();
+    let mut p = if s.ctor == 1 { bwt::Params::default() } else { bwt::Params::plain_tex_defaults() };
     p.space_skip = glue(&s.ss);
     p.extra_space_skip = glue(&s.xs);
     if s.codes != 0 {
@@ -682,6 +686,15 @@ fn check_para<F: FontRepo>(idx: u64, acc: &mut Acc, case: &dyn Fn() -> Value, li
         if l.penalty_sum == Some(-1) {
             acc.count("penalty_sum_minus_one");
         }
+        if l.disc_break && l.replaced > 0 && l.pruned >= 1 {
+            acc.count("break_at_disc_with_replace_count_and_empty_post_followed_by_discardable");
+        }
+        if l.disc_break && l.replaced > 0 && (1..=l.replaced).any(|j| matches!(hl.get(br.breaks[k] + j), Some(Item::Kern { kind: KernKind::Explicit, .. }))) {
+            acc.count("break_at_disc_replacing_an_explicit_kern");
+        }
+        if l.disc_break && l.replaced > 0 && (1..=l.replaced).any(|j| matches!(hl.get(br.breaks[k] + j), Some(Item::Kern { kind: KernKind::Normal, .. }))) {
+            acc.count("break_at_disc_replacing_a_font_kern");
+        }
         if l.disc_break && l.replaced >= 2 {
             acc.count("break_at_discretionary_replacing_two_items");
         }
@@ -1088,6 +1101,59 @@ fn check_deg(idx: u64, sel: &[u64], wsel: u64, tsel: u64, pv: u64, acc: &mut Acc
     check_para(idx, acc, &case, &list, &Toy, &NoHyph, false, &KpSet { p }, &widths, &indents, None);
 }
 
+/// Discretionaries with an empty post-break list that replace 1..2 following items (a character, an
+/// explicit kern, a font kern), followed by every kind of discardable material or by a character.
+fn replace_menu() -> Vec<(&'static str, Vec<H>)> {
+    use ds::KernKind::{Explicit, Normal};
+    let d = |rc| hdisc("-", "", rc);
+    vec![
+        ("disc(-||1) c glue", vec![d(1), hch('c'), hglue(2, 1, 1)]),
+        ("disc(-||1) c pen50", vec![d(1), hch('c'), hpen(50)]),
+        ("disc(-||1) c kern!", vec![d(1), hch('c'), hkern(1, Explicit)]),
+        ("disc(-||1) c glue glue", vec![d(1), hch('c'), hglue(2, 1, 1), hglue(1, 1, 0)]),
+        ("disc(-||1) c", vec![d(1), hch('c')]),
+        ("disc(-||1) kern! glue", vec![d(1), hkern(1, Explicit), hglue(2, 1, 1)]),
+        ("disc(-||1) kern!", vec![d(1), hkern(1, Explicit)]),
+        ("disc(-||2) kern! c glue", vec![d(2), hkern(1, Explicit), hch('c'), hglue(2, 1, 1)]),
+        ("disc(-||2) c kern! pen0", vec![d(2), hch('c'), hkern(1, Explicit), hpen(0)]),
+        ("disc(-||1) kern glue", vec![d(1), hkern(1, Normal), hglue(2, 1, 1)]),
+        ("disc(-||2) c c kern! glue", vec![d(2), hch('c'), hch('c'), hkern(1, Explicit), hglue(2, 1, 1)]),
+        ("disc(|| 1) c glue", vec![hdisc("", "", 1), hch('c'), hglue(2, 1, 1)]),
+    ]
+}
+const REP_OTHERS: [usize; 5] = [0, 7, 13, 11, 14]; // slot_menu: glue, pen-10000, nothing, disc(-|c|0), glue glue
+fn check_rep(idx: u64, r: u64, other: u64, order: u64, wsel: u64, tsel: u64, pv: u64, acc: &mut Acc) {
+    let rm = replace_menu();
+    let sm = slot_menu();
+    let rf = &rm[r as usize].1;
+    let of = &sm[REP_OTHERS[other as usize]].1;
+    let mut list: Vec<H> = vec![hch('a'), hch('a')];
+    list.extend((if order == 0 { rf } else { of }).iter().cloned());
+    list.push(hch('a'));
+    list.extend((if order == 0 { of } else { rf }).iter().cloned());
+    list.push(hch('b'));
+    let widths: Vec<Scaled> = HAND_WIDTHS[wsel as usize].iter().map(|w| Scaled(w * PT)).collect();
+    // parameter sets: 0 defaults, 1 both hyphen penalties -10000 (the break at every discretionary is forced), 2 both -100, 3 = 1 with leftskip
+    let mut p = kp::Params::plain_tex_defaults();
+    p.tolerance = HAND_TOLS[tsel as usize];
+    match pv {
+        1 | 3 => {
+            p.hyphen_penalty = -10000;
+            p.ex_hyphen_penalty = -10000;
+            if pv == 3 {
+                p.left_skip = Glue { width: Scaled(PT), ..Default::default() };
+            }
+        }
+        2 => {
+            p.hyphen_penalty = -100;
+            p.ex_hyphen_penalty = -100;
+        }
+        _ => {}
+    }
+    let case = || json!({"kind": "rep", "r": r, "other": other, "order": order, "widths": wsel, "tol": tsel, "pv": pv, "list": para::show_list(&conv_list(&list, &Toy)), "line_widths_pt": HAND_WIDTHS[wsel as usize]});
+    check_para(idx, acc, &case, &list, &Toy, &NoHyph, false, &KpSet { p }, &widths, &[], None);
+}
+
 const VOCAB2: [&str; 6] = ["a", "AV", "end.", "fi", "it:", "--"];
 /// Two fonts in one paragraph (no hyphenation: the hyphenator is tied to one font, documented TODO).
 fn check_fonts_para(idx: u64, res: &Res, words: &[&str], fonts: &[u32], skip_idx: usize, geom: usize, acc: &mut Acc) {
@@ -1396,13 +1462,7 @@ fn self_validate(res: &Res) -> (Vec<String>, usize) {
             }
         }
     }
-    // (c) the implementation's plain TeX \sfcode table is the one the model assumes (input data)
-    let codes = bwt::SpaceFactorCodes::plain_tex_defaults();
-    for c in 0..256u32 {
-        if codes.0[c as usize] as i64 != para::plain_sf_code(c) {
-            errs.push(format!("plain TeX \\sfcode of {c} is {} in the crate, {} in the model", codes.0[c as usize], para::plain_sf_code(c)));
-        }
-    }
+    // (the crate's default \sfcode table is subject matter: it is judged by family hlist-default-sfcodes, never here)
     (errs, nlines)
 }
 
@@ -1538,6 +1598,43 @@ fn main() {
             }
         });
     }
+    // F4b: discretionaries that replace following items, empty post-break list
+    {
+        let rad = [replace_menu().len() as u64, REP_OTHERS.len() as u64, 2, HAND_WIDTHS.len() as u64, HAND_TOLS.len() as u64, 4];
+        ctx.family("para-disc-replace", &format!("a a [X] a [Y] b with X,Y = one of {:?} and one of (glue, pen-10000, nothing, disc(-|c|0), glue glue) in both orders x line widths x tolerance x (defaults, hyphen penalties -10000, -100, -10000 with leftskip)", replace_menu().iter().map(|r| r.0).collect::<Vec<_>>()), vcore::product(&rad), |i, acc| {
+            let d = vcore::digits(i, &rad);
+            check_rep(i, d[0], d[1], d[2], d[3], d[4], d[5], acc);
+            if i == 300 {
+                acc.sample(i, || json!({"replace_filler": replace_menu()[d[0] as usize].0, "pv": d[5]}));
+            }
+        });
+    }
+    // F4c: the crate's own default \\sfcode table (Params::plain_tex_defaults / Params::default), judged
+    // against the model's plain TeX table: a word ending in every character, then a space
+    {
+        let mut chars: Vec<char> = (0u32..128).filter_map(char::from_u32).collect();
+        chars.extend(['\u{80}', '\u{a0}', '\u{e9}', '\u{ff}', '\u{100}', '\u{2003}']);
+        let pre = ["", "a", "A", "a."];
+        let suf = ["", ".", "?", "!", ":", ";", ",", ")", "'", "]"];
+        let sk = [0u64, 3, 14, 15];
+        let rad = [chars.len() as u64, pre.len() as u64, suf.len() as u64, sk.len() as u64];
+        let chars = &chars;
+        ctx.family("hlist-default-sfcodes", "words <prefix><c><suffix> followed by a space and 'a', c = every character 0..=127 and U+0080, U+00A0, U+00E9, U+00FF, U+0100, U+2003, prefix in ('', a, A, a.), suffix = nothing or one of . ? ! : ; , ) ' ]; sfcode table exactly as Params::plain_tex_defaults() / Params::default() provide it, with and without \\spaceskip/\\xspaceskip; expected glue from the model's own plain TeX table (INITEX + plain.tex)", vcore::product(&rad), |i, acc| {
+            let d = vcore::digits(i, &rad);
+            let c = chars[d[0] as usize];
+            let text = format!("{}{}{} a", pre[d[1] as usize], c, suf[d[2] as usize]);
+            if d[2] == 0 && (c as u32) < 128 && !para::is_separator(c) {
+                acc.count("word_ends_with_each_ascii_char_under_default_sfcodes");
+            }
+            if d[2] != 0 && c.is_ascii_uppercase() {
+                acc.count("punctuation_after_each_capital_under_default_sfcodes");
+            }
+            check_hlist(i, res, &text, sk[d[3] as usize] as usize, 0, acc);
+            if i == 2600 {
+                acc.sample(i, || json!({"text": text}));
+            }
+        });
+    }
     // F5: two fonts, driven through add_word / add_space / activate_font
     {
         let nc = count_fonts_cases(3);
@@ -1616,6 +1713,11 @@ fn main() {
         ("word_contains_vertical_tab_present_in_font", "a word holds U+000B (not ASCII white space for add_text) and the font has slot 0x0B"),
         ("word_begins_with_non_separator_white_space", "a word begins with a White_Space character that is not a separator (first-character test of add_text)"),
         ("text_separated_by_each_ascii_white_space_kind", "the words are separated by a run holding space, tab, line feed, form feed and carriage return"),
+        ("word_ends_with_each_ascii_char_under_default_sfcodes", "a word ends in a given ASCII character and a space follows, sfcodes as the crate's defaults provide them (one count per character x prefix x setting)"),
+        ("punctuation_after_each_capital_under_default_sfcodes", "a punctuation character directly follows a capital letter under the crate's default sfcodes"),
+        ("break_at_disc_with_replace_count_and_empty_post_followed_by_discardable", "a chosen break is a discretionary with replace count > 0 and empty post-break list, and discardable items follow the replaced items"),
+        ("break_at_disc_replacing_an_explicit_kern", "a chosen break is a discretionary whose replaced items include an explicit kern"),
+        ("break_at_disc_replacing_a_font_kern", "a chosen break is a discretionary whose replaced items include a font kern"),
         ("characters_255_and_256", "text with the characters 255 (last sfcode entry) and 256 (first without one)"),
         ("penalty_sum_negative", "the penalties of §890 add up to a negative value"),
         ("penalty_sum_plus_one", "the penalties of §890 add up to +1"),
@@ -1671,6 +1773,7 @@ fn replay(res: &Res, case: &Value, acc: &mut Acc) {
                 check_fonts_para(0, res, &words, &fonts, sk, case["geom"].as_u64().unwrap_or(0) as usize, acc)
             }
         }
+        Some("rep") => check_rep(0, case["r"].as_u64().unwrap_or(0), case["other"].as_u64().unwrap_or(0), case["order"].as_u64().unwrap_or(0), case["widths"].as_u64().unwrap_or(0), case["tol"].as_u64().unwrap_or(0), case["pv"].as_u64().unwrap_or(0), acc),
         Some("deg") => check_deg(0, &arr(&case["items"]), case["widths"].as_u64().unwrap_or(0), case["tol"].as_u64().unwrap_or(0), case["pv"].as_u64().unwrap_or(0), acc),
         Some("hand") => check_hand(0, case["head"].as_u64().unwrap_or(0), &arr(&case["slots"]), &arr(&case["boxes"]), case["tail"].as_u64().unwrap_or(0), case["widths"].as_u64().unwrap_or(0), case["tol"].as_u64().unwrap_or(0), case["pv"].as_u64().unwrap_or(0), acc),
         _ => {
